@@ -398,3 +398,116 @@ def coverage_common(res):
         'container_sizes': sorted(set(c['cs'] for c in res['w'])),
         'samples': [c['line'][:200] for c in res['w'][:2]] + [r['line'][:120] + '...' for r in res['r'][:2]],
     }
+
+
+# ---------------------------------------------------------------- hand-assembled streams (C08 C09 C10)
+def unknown_object(rng, code, size, declared=None):
+    """an object of a type the library does not know: base header + arbitrary body without the signature"""
+    body = bytes(rng.choice(b'\x00\x01ABJKMNPQxyz\xff') for _ in range(max(0, size - 16)))
+    return struct.pack('<4sHHII', SIG_OBJ, 16, 1, size if declared is None else declared, code) + body
+
+
+def filler(rng, n, prefix=b''):
+    alphabet = b'LOBxJ\x00\xff'
+    while True:
+        b = bytes(rng.choice(alphabet) for _ in range(n)) + prefix
+        if SIG_OBJ not in b:
+            return b
+
+
+def chunk(rng, data, sizes):
+    out = []
+    pos = 0
+    while pos < len(data):
+        n = rng.choice(sizes)
+        out.append(data[pos:pos + n])
+        pos += n
+    return out or [b'']
+
+
+def assembled_run(meta, seed, tier):
+    """streams assembled by hand: known objects (encodings taken from the model) with fillers and unknown-type
+    objects in between, cut into method-0 / zlib containers of arbitrary sizes.  Cached like run()."""
+    mexe = common.build_model_driver()
+    hexe = common.build_harness('file', extra_flags=['-D_GLIBCXX_SANITIZE_VECTOR'])
+    key = hashlib.sha256(('asm|%s|%s|%s|%s|%s' % (common.src_hash(), common.file_hash([mexe, __file__, codec.__file__]),
+                                                    common.file_hash([hexe + '.stamp']), seed, tier)).encode()).hexdigest()[:20]
+    cache = os.path.join(common.BUILD, 'filerun-%s.pkl' % key)
+    if os.path.exists(cache):
+        try:
+            return pickle.load(open(cache, 'rb'))
+        except Exception:
+            pass
+    rng = random.Random(seed * 7 + 1)
+    g = Gen(meta, rng)
+    pool = ['CanMessage', 'CanMessage', 'AppText', 'CanErrorFrame', 'LinMessage2', 'EthernetFrame', 'GlobalMarker', 'CanFdMessage']
+    objs = [g.obj(rng.choice(pool)) for _ in range(40)]
+    eo = codec.run_model(mexe, ['W ' + o for o in objs])
+    encs = [(o, bytes.fromhex(e.split(' ')[2])) for o, e in zip(objs, eo) if e.startswith('W ok ')]
+    known_codes = set(code for _, code, hdr in meta['format_table'] if hdr in meta['classes'])
+    unknown_codes = [c for c in [0, 26, 27, 28, 52, 53, 108, 116, 117, 132, 133, 139, 200, 255, 256, 65535, 0x7777, 2 ** 31, 2 ** 32 - 1] if c not in known_codes]
+    impl_known = set(int(k) for k, v in meta.get('factory', {}).items()) if isinstance(meta.get('factory'), dict) else set()
+    cases = []
+    n = 80 if tier == 'quick' else 1200
+    for k in range(n):
+        parts, expect = [], []
+        kind = rng.choice(['filler', 'unknown', 'mixed'])
+        for _ in range(rng.randrange(1, 6)):
+            r = rng.random()
+            if kind != 'unknown' and r < 0.5:
+                parts.append(('filler', filler(rng, rng.choice([0, 1, 2, 3, 4, 5, 7, 8, 13, 40]), rng.choice([b'', b'', b'L', b'LO', b'LOB', b'LL', b'LOL', b'LOBL', b'LOLOB']))))
+            if kind != 'filler' and rng.random() < 0.6:
+                size = rng.choice([16, 17, 18, 19, 20, 23, 24, 31, 32, 33, 47, 64, 100])
+                parts.append(('unknown', unknown_object(rng, rng.choice(unknown_codes), size)))
+            o, e = rng.choice(encs)
+            parts.append(('known', e))
+            expect.append(e)
+        if kind != 'unknown' and rng.random() < 0.5:
+            parts.append(('filler', filler(rng, rng.choice([0, 1, 3, 4, 9]))))
+        stream = b''.join(p for _, p in parts)
+        method, level = rng.choice([(0, 0), (0, 0), (2, 1), (2, 9)])
+        sizes = rng.choice([[1 << 20], [7, 16, 33], [1, 2, 3, 5], [48], [len(stream) // 2 + 1]])
+        data = file_of([wrap_container(c, method, level or 6) for c in chunk(rng, stream, sizes)])
+        cases.append({'mode': kind, 'data': data, 'expect': expect, 'layout': [(t, len(p)) for t, p in parts], 'stream': stream})
+    # hostile object / container headers (C10): sizes 0, below / at / above what is there, huge
+    for k in range(60 if tier == 'quick' else 600):
+        o, e = rng.choice(encs)
+        o2, e2 = rng.choice(encs)
+        b = bytearray(e)
+        what = rng.choice(['osz', 'hsz', 'len', 'type'])
+        if what == 'osz':
+            struct.pack_into('<I', b, 8, rng.choice([0, 1, 4, 15, 16, 17, len(e) - 1, len(e) + 1, len(e) + 4, 2 * len(e), 0x7fffffff, 0x80000000, 0xffffffff, 0xfffffff0]))
+        elif what == 'hsz':
+            struct.pack_into('<H', b, 4, rng.choice([0, 1, 15, 16, 17, 31, 32, 33, 0xffff]))
+        elif what == 'type':
+            struct.pack_into('<I', b, 12, rng.choice([1, 10, 65, 86, 115, 96, 71, 103, 5]))
+        else:
+            k2 = rng.randrange(16, max(17, len(b) - 3))
+            struct.pack_into('<I', b, k2 - k2 % 4, rng.choice([0xffffffff, 0xfffffff0, 0x7fffffff, 0x80000000, 0x10000000, len(e), 0x100000]))
+        stream = e2 + bytes(b) + e2
+        mode = 'hostile-' + what
+        if rng.random() < 0.3:
+            # hostile container header instead
+            cont = bytearray(wrap_container(stream, 0))
+            f = rng.choice([8, 16, 28, 4, 12])
+            struct.pack_into('<I' if f in (8, 28, 12) else '<H', cont, f, rng.choice([0, 1, 16, 31, 32, 33, len(stream), len(stream) + 33, 0xffffffff, 0x7fffffff, 0xfff0]) & (0xffffffff if f in (8, 28, 12) else 0xffff))
+            data = file_of([bytes(cont), wrap_container(e2, 0)])
+            mode = 'hostile-container@%d' % f
+        else:
+            data = file_of([wrap_container(c, rng.choice([0, 2])) for c in chunk(rng, stream, rng.choice([[1 << 20], [16, 33], [5]]))])
+        cases.append({'mode': mode, 'data': data, 'expect': None, 'layout': None, 'stream': stream})
+    for c in cases:
+        c['line'] = 'FR ' + c['data'].hex()
+    mo, io = run_lines([c['line'] for c in cases])
+    # what a known object decodes to on its own (object level)
+    uniq = sorted(set(e for c in cases if c['expect'] for e in c['expect']))
+    idx_of = {e: int(o.split()[0]) for o, e in encs}
+    ro = codec.run_model(mexe, ['R %d %s' % (idx_of[e], e.hex()) for e in uniq])
+    alone = {e: (idx_of[e], r.split(' |', 1)[1].strip() if ' |' in r else None) for e, r in zip(uniq, ro)}
+    for c, m, i in zip(cases, mo, io):
+        c['model'], c['impl'] = m, i
+        if c['expect'] is not None:
+            c['expect_dumps'] = ['%d |%s' % (alone[e][0], (' ' + alone[e][1]) if alone[e][1] else '') for e in c['expect']]
+    res = {'a': cases}
+    pickle.dump(res, open(cache, 'wb'))
+    return res
